@@ -8,6 +8,7 @@
 #![allow(clippy::all)]
 
 pub mod doc;
+pub mod echo;
 pub mod env;
 pub mod rec;
 pub mod stubs;
